@@ -32,7 +32,9 @@
      F-C20c  graph.compile dereferenced the nil generic helper of a pass-through node
              that no data edge or branch had given a type (panic),
      F-C20d  Chain.addEndIfNeeded returned early once the END edges existed, before
-             looking at the deferred error [c.err].
+             looking at the deferred error [c.err],
+     F-C20e  Workflow.compile applied the static values of a node at every Compile, also
+             the ones set after a successful Compile (which changed the next runnable).
 
    Definitions only. *)
 From Eino Require Import Base.Util.
@@ -108,9 +110,10 @@ Definition is_nil {A} (l : list A) : bool := match l with [] => true | _ => fals
 Definition is_some {A} (o : option A) : bool := match o with Some _ => true | None => false end.
 
 (* ------------------------------------------------------------------ code version *)
-Record ver : Type := mkVer { v_branch_check : bool; v_prenode_copy : bool; v_untyped_check : bool; v_chain_err_first : bool }.
-Definition fixed : ver := mkVer true true true true.
-Definition v0 : ver := mkVer false false false false.
+Record ver : Type := mkVer { v_branch_check : bool; v_prenode_copy : bool; v_untyped_check : bool; v_chain_err_first : bool;
+                             v_static_once : bool }.
+Definition fixed : ver := mkVer true true true true true.
+Definition v0 : ver := mkVer false false false false false.
 
 (* ------------------------------------------------------------------ graph level *)
 Inductive cmp : Type := CGraph | CChain | CWorkflow.
@@ -605,7 +608,8 @@ Record winput : Type := mkWI { wi_from : string; wi_kind : wkind; wi_fields : li
 (* WorkflowNode.mappedFieldPath for single-segment target paths *)
 Inductive mapped : Type := MNone | MWhole | MFields (fs : list string).
 
-Record wnode : Type := mkWN { wn_pending : list winput; wn_mapped : mapped }.
+(* wn_static: fields given a static value (SetStaticValue) that no Compile has applied yet *)
+Record wnode : Type := mkWN { wn_pending : list winput; wn_mapped : mapped; wn_static : list string }.
 
 Record wstate := mkW {
   w_g : gstate;
@@ -675,8 +679,8 @@ Fixpoint run_nodes (w : wstate) (order : list string) : wstate * option ecls :=
     | None => run_nodes w rest
     | Some n =>
       match run_inputs (w_g w) k (wn_mapped n) (wn_pending n) with
-      | (g', m', Some e) => (w_set_nodes (alist_set k (mkWN (wn_pending n) m') (w_nodes w)) (w_set_g g' w), Some e)
-      | (g', m', None) => run_nodes (w_set_nodes (alist_set k (mkWN [] m') (w_nodes w)) (w_set_g g' w)) rest
+      | (g', m', Some e) => (w_set_nodes (alist_set k (mkWN (wn_pending n) m' (wn_static n)) (w_nodes w)) (w_set_g g' w), Some e)
+      | (g', m', None) => run_nodes (w_set_nodes (alist_set k (mkWN [] m' (wn_static n)) (w_nodes w)) (w_set_g g' w)) rest
       end
     end
   end.
@@ -700,10 +704,40 @@ Inductive wcall : Type :=
 | WAddInput (to from : string) (kind : wkind) (fields : list string)
 | WAddBranch (from : string) (ends : list string)
 | WAddEnd (from : string) (fields : list string)
-| WCompile (o : copt) (ord : list string).
+| WSetStatic (k : string) (field : string)
+| WCompile (o : copt) (ord sord : list string).
 
-(* Workflow.compile; [ord]: the nodes Go's map iteration happens to visit first *)
-Definition w_compile (v : ver) (w : wstate) (o : copt) (ord : list string) : wstate * outcome :=
+(* the static values of the nodes named in [order], one node after the other: their paths
+   are entered in the node's mapped paths, a handler is put in front of the node's
+   pre-handlers, and (repaired version) they are consumed; a node whose static values are
+   still waiting in a compiled workflow makes the Compile fail (repaired version) *)
+Fixpoint run_statics (v : ver) (w : wstate) (order : list string) : wstate * option ecls :=
+  match order with
+  | [] => (w, None)
+  | k :: rest =>
+    match alist_get k (w_nodes w) with
+    | None => run_statics v w rest
+    | Some n =>
+      match wn_static n with
+      | [] => run_statics v w rest
+      | fs =>
+        if v_static_once v && g_compiled (w_g w) then (w, Some ECompiled)
+        else
+          match check_mapped (wn_mapped n) fs with
+          | (m', Some e) => (w_set_nodes (alist_set k (mkWN (wn_pending n) m' fs) (w_nodes w)) w, Some e)
+          | (m', None) =>
+            run_statics v
+              (w_set_nodes (alist_set k (mkWN (wn_pending n) m' (if v_static_once v then [] else fs)) (w_nodes w))
+                 (w_set_g (set_h_prenode (k :: g_h_prenode (w_g w)) (w_g w)) w))
+              rest
+          end
+      end
+    end
+  end.
+
+(* Workflow.compile; [ord] / [sord]: the nodes Go's map iteration happens to visit first in
+   the loop over the deferred inputs / in the loop over the static values *)
+Definition w_compile (v : ver) (w : wstate) (o : copt) (ord sord : list string) : wstate * outcome :=
   match g_err (w_g w) with
   | Some e => (w, OErr e)
   | None =>
@@ -712,7 +746,11 @@ Definition w_compile (v : ver) (w : wstate) (o : copt) (ord : list string) : wst
     | (w1, None) =>
       match run_nodes w1 (ord ++ map fst (w_nodes w1)) with
       | (w2, Some e) => (w2, OErr e)
-      | (w2, None) => let '(g', out) := g_compile v (w_g w2) o in (w_set_g g' w2, out)
+      | (w2, None) =>
+        match run_statics v w2 (sord ++ map fst (w_nodes w2)) with
+        | (w3, Some e) => (w3, OErr e)
+        | (w3, None) => let '(g', out) := g_compile v (w_g w3) o in (w_set_g g' w3, out)
+        end
       end
     end
   end.
@@ -721,19 +759,28 @@ Definition wstep (v : ver) (w : wstate) (call : wcall) : wstate * outcome :=
   match call with
   | WAddNode k nk ns =>
     let '(g', _) := g_add_node (w_g w) k nk ns false false in
-    (w_set_nodes (alist_set k (mkWN [] MNone) (w_nodes w)) (w_set_g g' w), OOk)
+    (w_set_nodes (alist_set k (mkWN [] MNone []) (w_nodes w)) (w_set_g g' w), OOk)
   | WAddInput to from kind fs =>
     let nodes := if String.eqb to END_ && negb (is_some (alist_get to (w_nodes w)))
-                 then alist_set to (mkWN [] MNone) (w_nodes w) else w_nodes w in
+                 then alist_set to (mkWN [] MNone []) (w_nodes w) else w_nodes w in
     match alist_get to nodes with
     | None => (w, OOk)      (* no handle to call AddInput on: not expressible in Go *)
     | Some n =>
-      (w_set_nodes (alist_set to (mkWN (wn_pending n ++ [mkWI from kind fs]) (wn_mapped n)) nodes) w, OOk)
+      (w_set_nodes (alist_set to (mkWN (wn_pending n ++ [mkWI from kind fs]) (wn_mapped n) (wn_static n)) nodes) w, OOk)
     end
   | WAddBranch from ends => (mkW (w_g w) (w_nodes w) (w_branches w ++ [(from, ends)]), OOk)
   | WAddEnd from fs =>
     let '(g', _) := g_add_edge (w_g w) from END_ false false fs in (w_set_g g' w, OOk)
-  | WCompile o ord => w_compile v w o ord
+  | WSetStatic k f =>
+    let nodes := if String.eqb k END_ && negb (is_some (alist_get k (w_nodes w)))
+                 then alist_set k (mkWN [] MNone []) (w_nodes w) else w_nodes w in
+    match alist_get k nodes with
+    | None => (w, OOk)      (* no handle *)
+    | Some n =>
+      (w_set_nodes (alist_set k (mkWN (wn_pending n) (wn_mapped n)
+                                      (if smem f (wn_static n) then wn_static n else wn_static n ++ [f])) nodes) w, OOk)
+    end
+  | WCompile o ord sord => w_compile v w o ord sord
   end.
 
 (* ------------------------------------------------------------------ running call sequences *)
